@@ -380,7 +380,10 @@ impl Format {
                     + (decomposed[4] as i64) * Unit::Minute
                     + (decomposed[5] as i64) * Unit::Second
                     + (decomposed[6] as i64) * Unit::Nanosecond;
-                Epoch::from_day_of_year(decomposed[0], days, ts) + elapsed
+                // NOTE: same computation as `Epoch::from_day_of_year` but without panicking on an invalid year.
+                let start_of_year =
+                    Epoch::maybe_from_gregorian(decomposed[0], 1, 1, 0, 0, 0, 0, ts)?;
+                start_of_year + (days - 1.0) * Unit::Day + elapsed
             }
             None => Epoch::maybe_from_gregorian(
                 decomposed[0],
